@@ -397,6 +397,12 @@ func vparseC10Unit(unit string) (*vc10unit, error) {
 }
 
 // VerifC10Units: tier quick = base seeds + short strings ≤3; thorough = also every single-deviation seed, short strings ≤4.
+// vmutationCount: number of cases vmutate enumerates for a seed (the enumeration itself, without building inputs).
+func vmutationCount(seed []byte) int {
+	n, _ := vmutate(seed, 1<<62, func(int, vmutation, []byte) bool { return true })
+	return n
+}
+
 func VerifC10Units(thorough bool, extraMax map[string]int) []VerifUnit {
 	VerifC09Families(extraMax)
 	var out []VerifUnit
@@ -409,13 +415,24 @@ func VerifC10Units(thorough bool, extraMax map[string]int) []VerifUnit {
 			continue
 		}
 		for v := int16(0); v <= f.MaxVersion; v++ {
-			out = append(out, VerifUnit{ID: fmt.Sprintf("%s|v%d|c0|short:%d", f.Name, v, short), Family: f.Name, Weight: 2000})
+			nshort := 0
+			for l, p := 0, 1; l <= short; l, p = l+1, p*len(vshortAlphabet) {
+				nshort += p
+			}
+			out = append(out, VerifUnit{ID: fmt.Sprintf("%s|v%d|c0|short:%d", f.Name, v, short), Family: f.Name, Weight: nshort})
 			for ci, cfg := range f.Cfgs {
 				_, slots := vbuild(f.Type, cfg, nil)
-				out = append(out, VerifUnit{ID: fmt.Sprintf("%s|v%d|c%d|base", f.Name, v, ci), Family: f.Name, Weight: 6000})
+				w := 0
+				if r := vexecEncodeOnly(vcaseID{fam: f.Name, ver: v, cfg: ci}); r != nil && r.b0 != nil {
+					w = vmutationCount(r.b0)
+				}
+				if w == 0 {
+					continue // the encoder refuses the base value of this version
+				}
+				out = append(out, VerifUnit{ID: fmt.Sprintf("%s|v%d|c%d|base", f.Name, v, ci), Family: f.Name, Weight: w})
 				if thorough {
 					for si, s := range slots {
-						out = append(out, VerifUnit{ID: fmt.Sprintf("%s|v%d|c%d|slot:%d", f.Name, v, ci, si), Family: f.Name, Weight: 6000 * len(s.alts)})
+						out = append(out, VerifUnit{ID: fmt.Sprintf("%s|v%d|c%d|slot:%d", f.Name, v, ci, si), Family: f.Name, Weight: w * len(s.alts)})
 					}
 				}
 			}
@@ -441,7 +458,10 @@ func vdecodeMeasured(dec func([]byte, int16) (reflect.Value, error), data []byte
 // VerifC10RunUnit executes the cases of a unit starting at case index `from`, leaving out the indices in skip (cases
 // known to kill the process); progress is told the case about to run; flush (optional) receives intermediate
 // results every 1000 cases, so that a later death of the process loses little.
-func VerifC10RunUnit(unit string, from int, skip map[int]bool, progress func(string), flush func(VerifC10Result)) (res VerifC10Result) {
+func VerifC10RunUnit(unit string, from, to int, skip map[int]bool, progress func(string), flush func(VerifC10Result)) (res VerifC10Result) {
+	if to <= 0 {
+		to = 1 << 62
+	}
 	fresh := func() VerifC10Result {
 		return VerifC10Result{Unit: unit, ByClass: map[string]int{}, Outcomes: map[string]int{}, Errors: map[string]int{}, SigCount: map[string]int{}}
 	}
@@ -457,9 +477,15 @@ func VerifC10RunUnit(unit string, from int, skip map[int]bool, progress func(str
 	seen := map[uint64]bool{}
 	flushedDistinct := 0
 	seedsCounted := map[*vc10seed]bool{}
+	stopped := false
 	idx := 0 // global case index over all seeds of the unit
 	run := func(seed *vc10seed, total int) func(i int, m vmutation, data []byte) bool {
 		return func(i int, m vmutation, data []byte) bool {
+			if total+i >= to {
+				res.Next = to
+				stopped = true
+				return false
+			}
 			if skip[total+i] {
 				return true
 			}
@@ -502,6 +528,7 @@ func VerifC10RunUnit(unit string, from int, skip map[int]bool, progress func(str
 			res.Next = n
 		}
 		finish()
+		_ = stopped
 		return
 	}
 	seeds, engErr := vc10seeds(u)
